@@ -312,6 +312,37 @@ func runC13(c *fw.Ctx) {
 			}
 		})
 	})
+	// native sources whose numbers come in all the Go widths: the export shows the normalised values (int, float64), a
+	// float32 as the float64 that is exactly equal to it
+	c.Cases("numeric-widths", 6, true, func(i int, r *rng.R) {
+		third := float32(1.0) / 3
+		src := []any{int8(-5), uint8(200), int16(-300), uint16(65535), int32(-70000), uint32(70000), int64(-9), uint64(12), uint(3), float32(0.1), float32(3.14), third, float32(1.5),
+			map[string]any{"f": float32(0.1), "i": int8(7), "l": []any{float32(16777217), uint16(1)}}}
+		want := []any{-5, 200, -300, 65535, -70000, 70000, -9, 12, 3, float64(float32(0.1)), float64(float32(3.14)), float64(third), 1.5,
+			map[string]any{"f": float64(float32(0.1)), "i": 7, "l": []any{float64(float32(16777217)), 1}}}
+		in := func() string { return fmt.Sprintf("native source with sized numbers %#v", src) }
+		guard(c, in, func() {
+			c.Distinct(fmt.Sprintf("numeric widths %d", i))
+			var got any
+			switch i {
+			case 0:
+				got = at.NewListFrom(src).NativeSlice()
+			case 1:
+				got = at.NewList(src...).NativeSlice()
+			case 2:
+				got = at.NewList().Add(src...).NativeSlice()
+			case 3:
+				got = at.NewObjectFrom(map[string]any{"k": src}).NativeDict()["k"]
+			case 4:
+				got = at.NewObject("k", src).NativeDict()["k"]
+			default:
+				got = at.NewList().SetTF("#0", src).NativeSlice()[0]
+			}
+			if !reflect.DeepEqual(got, any(want)) {
+				c.Violate("native-export-differs", in(), fmt.Sprintf("%#v", want), fmt.Sprintf("%#v", got))
+			}
+		})
+	})
 	c.Cases("import-after-rejection", c.N(60, 3000), false, func(i int, r *rng.R) {
 		t := spec.GenTree(r, spec.Opts{MaxDepth: r.Range(2, 4), MaxWidth: r.Range(2, 4), ScalarBias: 4})
 		nat := drive.Native(t)
